@@ -177,3 +177,124 @@ Proof.
 Qed.
 
 End Proofs.
+
+(* ---------------- two ranges alive at once: the outer loop sees only its own range *)
+Section TwoProofs.
+Variables A O : Type.
+Variable inner : list A -> list A * O.
+
+Lemma nth_error_app_exact' (pre : list A) v r : nth_error (pre ++ v :: r) (length pre) = Some v.
+Proof. rewrite nth_error_app2 by lia. rewrite Nat.sub_diag. reflexivity. Qed.
+Lemma upd_app_exact' (pre : list A) v r g : upd (pre ++ v :: r) (length pre) g = pre ++ g v :: r.
+Proof. induction pre as [|x pre IH]; simpl; [reflexivity | rewrite IH; reflexivity]. Qed.
+
+(* whatever the body does with b (even write it): the visits are a's elements in opposite order and a ends as map f a *)
+Lemma r_loop2_any (f : A -> A) pre : forall suf fuel vis b,
+  length pre < fuel ->
+  exists vis' b', r_loop2 A O inner fuel f (pre ++ suf) b (length pre) 0 vis = Done (vis ++ vis', map f pre ++ suf, b')
+                  /\ map fst vis' = rev pre.
+Proof.
+  induction pre as [|x p IH] using rev_ind; intros suf fuel vis b Hf.
+  - destruct fuel as [|fuel]; [simpl in Hf; lia|]. exists [], b. simpl. rewrite app_nil_r. auto.
+  - destruct fuel as [|fuel]; [simpl in Hf; lia|].
+    rewrite app_length in *. simpl length in *. rewrite Nat.add_1_r in *.
+    simpl r_loop2. unfold r_deref. rewrite <- app_assoc. simpl app. rewrite nth_error_app_exact'.
+    simpl pred. rewrite upd_app_exact'. destruct (inner b) as [b1 o].
+    destruct (IH (f x :: suf) fuel (vis ++ [(x, o)]) b1) as (vis' & b' & E & M); [lia|].
+    exists ((x, o) :: vis'), b'. split.
+    + rewrite E. rewrite map_app. simpl. rewrite <- !app_assoc. reflexivity.
+    + simpl. rewrite M, rev_app_distr. reflexivity.
+Qed.
+
+(* a body that only reads b: b is unchanged and every outer visit sees the same inner observation *)
+Lemma r_loop2_readonly (f : A -> A) (RO : forall b, fst (inner b) = b) pre : forall suf fuel vis b,
+  length pre < fuel ->
+  r_loop2 A O inner fuel f (pre ++ suf) b (length pre) 0 vis =
+  Done (vis ++ map (fun v => (v, snd (inner b))) (rev pre), map f pre ++ suf, b).
+Proof.
+  induction pre as [|x p IH] using rev_ind; intros suf fuel vis b Hf.
+  - destruct fuel as [|fuel]; [simpl in Hf; lia|]. simpl. rewrite app_nil_r. reflexivity.
+  - destruct fuel as [|fuel]; [simpl in Hf; lia|].
+    rewrite app_length in *. simpl length in *. rewrite Nat.add_1_r in *.
+    simpl r_loop2. unfold r_deref. rewrite <- app_assoc. simpl app. rewrite nth_error_app_exact'.
+    simpl pred. rewrite upd_app_exact'. pose proof (RO b) as R. destruct (inner b) as [b1 o] eqn:EI. simpl in R. subst b1.
+    rewrite (IH (f x :: suf) fuel (vis ++ [(x, o)]) b) by lia. rewrite EI. simpl.
+    rewrite rev_app_distr, !map_app. simpl. rewrite <- !app_assoc. reflexivity.
+Qed.
+
+Theorem reverse_for2_any (f : A -> A) a b :
+  exists vis b', reverse_for2 A O inner f a b = Done (vis, map f a, b') /\ map fst vis = rev a.
+Proof.
+  unfold reverse_for2, r_begin, r_end.
+  destruct (r_loop2_any f a [] (S (length a)) [] b (Nat.lt_succ_diag_r _)) as (vis & b' & E & M).
+  rewrite !app_nil_r in E. exists vis, b'. auto.
+Qed.
+
+Theorem reverse_for2_readonly (f : A -> A) a b : (forall b, fst (inner b) = b) ->
+  reverse_for2 A O inner f a b = Done (map (fun v => (v, snd (inner b))) (rev a), map f a, b).
+Proof.
+  intros RO. unfold reverse_for2, r_begin, r_end.
+  pose proof (r_loop2_readonly f RO a [] (S (length a)) [] b (Nat.lt_succ_diag_r _)) as E.
+  rewrite !app_nil_r in E. exact E.
+Qed.
+
+Lemma e_loop2_any (f : nat -> A -> A) rest : forall pre k fuel vis e b,
+  e_pos e = length pre + length rest -> length rest < fuel ->
+  exists vis' b', e_loop2 A O inner fuel f (pre ++ rest) b {| e_pos := length pre; e_idx := k |} e vis =
+                  Done (vis ++ vis', pre ++ map (fun p => f (fst p) (snd p)) (combine (seq k (length rest)) rest), b')
+                  /\ map fst vis' = combine (seq k (length rest)) rest.
+Proof.
+  induction rest as [|v r IH]; intros pre k fuel vis e b He Hf.
+  - destruct fuel as [|fuel]; [simpl in Hf; lia|]. exists [], b. simpl in *.
+    unfold e_ne. simpl. rewrite He, Nat.add_0_r, Nat.eqb_refl. simpl. rewrite !app_nil_r. auto.
+  - destruct fuel as [|fuel]; [simpl in Hf; lia|]. simpl in He, Hf. simpl e_loop2.
+    unfold e_ne. simpl e_pos.
+    assert (Hne : (length pre =? e_pos e) = false) by (apply Nat.eqb_neq; lia). rewrite Hne. simpl negb. cbv iota.
+    unfold e_deref. simpl e_pos. simpl e_idx. rewrite nth_error_app_exact', upd_app_exact'.
+    unfold e_incr. simpl e_pos. simpl e_idx. destruct (inner b) as [b1 o].
+    replace (pre ++ f k v :: r) with ((pre ++ [f k v]) ++ r) by (rewrite <- app_assoc; reflexivity).
+    replace (S (length pre)) with (length (pre ++ [f k v])) by (rewrite app_length; simpl; lia).
+    destruct (IH (pre ++ [f k v]) (S k) fuel (vis ++ [((k, v), o)]) e b1) as (vis' & b' & E & M);
+      [rewrite app_length; simpl; lia | lia |].
+    exists (((k, v), o) :: vis'), b'. split.
+    + rewrite E. simpl. rewrite <- !app_assoc. reflexivity.
+    + simpl. rewrite M. reflexivity.
+Qed.
+
+Lemma e_loop2_readonly (f : nat -> A -> A) (RO : forall b, fst (inner b) = b) rest : forall pre k fuel vis e b,
+  e_pos e = length pre + length rest -> length rest < fuel ->
+  e_loop2 A O inner fuel f (pre ++ rest) b {| e_pos := length pre; e_idx := k |} e vis =
+  Done (vis ++ map (fun p => (p, snd (inner b))) (combine (seq k (length rest)) rest),
+        pre ++ map (fun p => f (fst p) (snd p)) (combine (seq k (length rest)) rest), b).
+Proof.
+  induction rest as [|v r IH]; intros pre k fuel vis e b He Hf.
+  - destruct fuel as [|fuel]; [simpl in Hf; lia|]. simpl in *.
+    unfold e_ne. simpl. rewrite He, Nat.add_0_r, Nat.eqb_refl. simpl. rewrite !app_nil_r. reflexivity.
+  - destruct fuel as [|fuel]; [simpl in Hf; lia|]. simpl in He, Hf. simpl e_loop2.
+    unfold e_ne. simpl e_pos.
+    assert (Hne : (length pre =? e_pos e) = false) by (apply Nat.eqb_neq; lia). rewrite Hne. simpl negb. cbv iota.
+    unfold e_deref. simpl e_pos. simpl e_idx. rewrite nth_error_app_exact', upd_app_exact'.
+    unfold e_incr. simpl e_pos. simpl e_idx.
+    pose proof (RO b) as R. destruct (inner b) as [b1 o] eqn:EI. simpl in R. subst b1.
+    replace (pre ++ f k v :: r) with ((pre ++ [f k v]) ++ r) by (rewrite <- app_assoc; reflexivity).
+    replace (S (length pre)) with (length (pre ++ [f k v])) by (rewrite app_length; simpl; lia).
+    rewrite IH; [| rewrite app_length; simpl; lia | lia]. rewrite EI.
+    simpl. rewrite <- !app_assoc. reflexivity.
+Qed.
+
+Theorem enumerate_for2_any (f : nat -> A -> A) a b :
+  exists vis b', enumerate_for2 A O inner f a b = Done (vis, spec_enumerate_write f a, b') /\ map fst vis = spec_enumerate a.
+Proof.
+  unfold enumerate_for2, e_begin, spec_enumerate, spec_enumerate_write.
+  destruct (e_loop2_any f a [] 0 (S (length a)) [] (e_end A a) b) as (vis & b' & E & M); simpl; try lia.
+  exists vis, b'. auto.
+Qed.
+
+Theorem enumerate_for2_readonly (f : nat -> A -> A) a b : (forall b, fst (inner b) = b) ->
+  enumerate_for2 A O inner f a b =
+  Done (map (fun p => (p, snd (inner b))) (spec_enumerate a), spec_enumerate_write f a, b).
+Proof.
+  intros RO. unfold enumerate_for2, e_begin, spec_enumerate, spec_enumerate_write.
+  apply (e_loop2_readonly f RO a [] 0 (S (length a)) [] (e_end A a) b); simpl; lia.
+Qed.
+End TwoProofs.
